@@ -92,6 +92,21 @@ func (simpleHTTPSelf *SimpleHTTPDef) SetHTTPClient(client *http.Client) {
 	// through this SimpleHTTP (and no longer through whoever wraps it now)
 	if old := simpleHTTPSelf.client; old != nil && old != client && old.Transport == http.RoundTripper(simpleHTTPSelf) {
 		old.Transport = simpleHTTPSelf.clientTransport
+	} else if old != nil && old != client {
+		// Not on top of the old client's chain (another SimpleHTTP wraps this one there): unlink from the
+		// middle, otherwise that chain keeps running through this SimpleHTTP and loses what it wrapped
+		transport := old.Transport
+		for i := 0; i < 64; i++ {
+			wrapper, ok := transport.(*SimpleHTTPDef)
+			if !ok || wrapper == nil {
+				break
+			}
+			if wrapper.clientTransport == http.RoundTripper(simpleHTTPSelf) {
+				wrapper.clientTransport = simpleHTTPSelf.clientTransport
+				break
+			}
+			transport = wrapper.clientTransport
+		}
 	}
 	if client.Transport == nil {
 		client.Transport = http.DefaultTransport
